@@ -220,6 +220,14 @@ class Ctx:
     def count(self, key, k=1):
         self.dist[key] = self.dist.get(key, 0) + k
 
+    def info(self, name, impl, model):
+        """behaviour the property text does not constrain (malformed / undocumented call forms, wording of printed lines, which
+        partial effects an internal helper leaves behind when it raises, ...): compared with the model for the RECORD only - a counter
+        in the evidence, never a property or auxiliary mismatch (GAP_GUIDE: nothing outside what the property constrains may alarm)"""
+        same = impl == model
+        self.count(f"info:{name}: " + ("as modelled" if same else "differs from the model (not constrained by the property: no verdict)"))
+        return same
+
     def case(self, desc, nontrivial=True, sample=None):
         """register one generated case; desc must be hashable-able (json) and canonical"""
         self.cases += 1
